@@ -301,6 +301,14 @@ struct World {
    std::map<const impl::General_substitution*, std::map<const ipr::Parameter*, const ipr::Expr*>> subst_models;
    std::map<const ipr::Substitution*, std::pair<const ipr::Parameter*, const ipr::Expr*>> elem_subst_models;
    std::map<Ref, std::pair<std::string, std::string>> spellings;   // linkage / convention / logogram / transfer -> spelling(s)
+   std::map<Ref, Ref> print_parent;                                // child printed in place by an older container (handler -> block, parameter -> mapping)
+   Ref bound_for(Ref child) { auto it = print_parent.find(child); return it == print_parent.end() ? child : it->second; }
+   std::set<Ref> sealed_bodies;                                    // user-defined types whose body is printed in place somewhere: no further members
+   std::set<Ref> body_printers;                                    // declarations whose initializer prints a body
+   std::map<Ref, std::vector<Ref>> template_mapping;               // mapping -> templates initialised with it
+   static bool is_udt_category(int cat);
+   bool can_seal_as_body(const ipr::Type& udt, uint32_t user_born);
+   bool region_sealed(const ipr::Region& r);                        // r is the body (or inside the body) of a sealed type
    Ref this_name = nullptr;                                        // the Identifier naming `this`, learnt from the first get_this
    std::vector<void*> noise_blocks;
    std::vector<impl::ref_sequence<ipr::Attribute>*> attr_seqs;      // sequences kept by reference by attributes: owned by the world
@@ -383,6 +391,12 @@ struct World {
    Verdict rerequest_all(size_t cap = 600);       // ask every recorded key once more: same node
    const ipr::Qualified* last_qualified = nullptr;
    void note_identifier(const ipr::Identifier&);
+   const ipr::String& note_string(const ipr::String& s)
+   {
+      auto w = s.characters();
+      spelling_of_string[nref(s)] = std::string(reinterpret_cast<const char*>(w.data()), w.size());
+      return s;
+   }
    void borrow_type(Ref node, const ipr::Expr& source);      // type() of `node` must agree with source.type() from now on
    std::string check_borrow(Ref node, const Rec&);
    Verdict check_products();                                 // C09: sequence types track their members
